@@ -125,7 +125,8 @@ def record_write_run(integ, entry, ptype, stmts, fs, preset, explicit_flow=False
             events.append({"e": "pull", "i": state["pulled"], "pending": pending()})
             yield (terms.stmt_to_generic(st) if integ == "generic" else impl.rdflib_statement(st))
 
-    src = source() if iter_kind == "generator" else map(lambda x: x, source()) if iter_kind == "map" else _Iter(source())
+    src = (source() if iter_kind == "generator" else map(lambda x: x, source()) if iter_kind == "map" else
+           (tuple(x) for x in source()) if iter_kind == "plain-tuples" else _Iter(source()))
     if entry == "flat_stream_to_frames":
         gen = mod.flat_stream_to_frames(src, impl.make_options(cfg))
         state["gen"] = gen
@@ -194,7 +195,7 @@ def main(tier: str) -> int:
                         entry = ("flat_stream_to_frames", "stream_frames")[(bi + fs) % 2]
                         explicit = (bi + n) % 3 == 0 and fs != 250
                         try:
-                            ik = ("generator", "map", "iterator-class")[(bi + fs + n) % 3]
+                            ik = ("generator", "map", "iterator-class", "plain-tuples" if integ == "rdflib" else "generator")[(bi + fs + n) % 4]
                             ev = record_write_run(integ, entry, c["PType"], stmts, fs, (c["MaxN"], c["MaxP"], c["MaxD"]), explicit_flow=explicit, iter_kind=ik)
                         except ProjectionUnavailable as ex:
                             run.model_drift(f"write pipeline {entry} cannot be observed ({ex}): event log skipped")
